@@ -29,6 +29,7 @@ var userKinds = map[string][]string{
 }
 
 type genCfg struct {
+	pre      bool // wrap some primitives in Preprocess (Parse only)
 	noCustom bool
 	okPT     bool // PostTransforms never fail
 	cbHeavy  bool // user tests and PostTransforms on (almost) every node
@@ -188,6 +189,9 @@ func genNode(r *rand.Rand, g genCfg, depth int, parent string) *Node {
 	}
 	switch k {
 	case "prim":
+		if g.pre && parent != "" && r.Intn(3) == 0 {
+			return &Node{K: "pre", Ty: pick(r, []string{"ok", "ok", "err", "zerr"}), Def: None, Catch: None, Tests: []Test{}, Pts: []string{}, Kids: []Kid{{Node: genPrim(r, g)}}}
+		}
 		return genPrim(r, g)
 	case "custom":
 		return custom(Test{Kind: pick(r, []string{"gte", "lte", "eq"}), N: 1 + r.Intn(4), Code: "cust", User: true})
@@ -298,6 +302,15 @@ func genLeafFor(r *rand.Rand, ty string) *Input {
 
 func genParseInput(r *rand.Rand, n *Node, fe string) *Input {
 	switch n.K {
+	case "pre":
+		in := genParseInput(r, n.Elem(), fe)
+		if in.T == "val" && r.Intn(4) > 0 {
+			in.Rep = "str" // mostly strings: that is what the function accepts
+		}
+		if in.T == "list" {
+			return nilIn()
+		}
+		return in
 	case "prim":
 		if fe == "json" {
 			return jsonLeaf(genLeafFor(r, n.Ty), n.Ty)
